@@ -44,6 +44,9 @@ CHECKS["C15"] = dict(cat="other", tech="SMT (z3) identities on the traced IR: on
 CHECKS["C09"] = dict(cat="other", tech="SMT (z3) scheme-row identities on the traced one-step IR of networks with harness-assembled synaptic terms (compositional cut on the traced per-synapse currents); DAG equality for creation orders / zero conductance; symbol identity for data_set reach",
    text="For each wiring (autapse, fan-in, two interleaved synapse types, duplicate pairs) z3 proves for all symbolic voltages, states, geometry and per-edge parameters that the traced new voltages satisfy the update equations in which each synapse reads the harness-requested pre compartment, injects into the requested post compartment with that compartment's area and currents add; all creation orders give the identical DAG; zero conductance equals no synapses; data_set through three kinds of edge views reaches exactly the requested rows.",
    note="exact real arithmetic; rows are claimed for executions without division by zero (synaptic slopes are unconstrained atoms); point cells; secant linearisation taken from the code", ref="6 C09")
+CHECKS["C13"] = dict(cat="translation_validation", tech="symbolic execution of traced integrate on the re-discretised vs the directly built cell; DAG equality for all symbolic table entries and three backends; concrete side-checks of tables, SWC radius profiles and group membership",
+   text="For a hand-built 4-branch cell (every branch, n in 1..4, sequences of two calls) and SWC cells (a generated spindle-soma morphology and the repository's small morphologies, initial ncomp -> new ncomp on every branch) the traced simulation after set_ncomp is compared node by node with that of the directly constructed cell. Tables, total lengths, radius profiles, connectivity and group membership are concrete side-checks against the direct construction.",
+   note="set_ncomp itself is pandas/numpy code (not solver-decided); direct construction is the oracle; exact real arithmetic", ref="6 C13")
 NA = {}
 checks = []
 for pid, c in CHECKS.items():
